@@ -87,6 +87,18 @@ class FormulaEvaluator(Generic[QuantityT]):
         self._first_run = False
         return latest_ts
 
+    @staticmethod
+    def _timestamps_differ(
+        metrics: set[asyncio.Task[Sample[QuantityT] | None]],
+    ) -> bool:
+        """Tell whether the fetched samples do not all carry the same timestamp."""
+        timestamps = {
+            result.timestamp
+            for metric in metrics
+            if (result := metric.result()) is not None
+        }
+        return len(timestamps) > 1
+
     async def apply(self) -> Sample[QuantityT]:
         """Fetch the latest metrics, apply the formula once and return the result.
 
@@ -111,7 +123,9 @@ class FormulaEvaluator(Generic[QuantityT]):
                 f"Some resampled metrics didn't arrive, for formula: {self._name}"
             )
 
-        if self._first_run:
+        # Inputs that got out of step (for example a fallback that took over from a
+        # failed primary stream with its own first sample) are synchronized again.
+        if self._first_run or self._timestamps_differ(ready_metrics):
             metric_ts = await self._synchronize_metric_timestamps(ready_metrics)
         else:
             sample = next(iter(ready_metrics)).result()
